@@ -29,7 +29,7 @@ func init() {
 		if !E.netUp {
 			return tuple{(*value)(nil), mkError("dial tcp: connection refused (verif endpoint model: down)")}
 		}
-		c := &netConn{id: len(E.netConns)}
+		c := &netConn{id: len(E.netConns), stalled: E.netStallNew}
 		E.netConns = append(E.netConns, c)
 		// a real TCPConn struct value; the model object is found through the address of the struct and
 		// of its embedded conn field (the receiver of the promoted Read/Write/Close methods)
@@ -82,6 +82,7 @@ func init() {
 
 	verifFuncs["verifEndpointAddr"] = func(fr *frame, a []value) value { return mkStr("127.0.0.1:2003") }
 	verifFuncs["verifEndpointUp"] = func(fr *frame, a []value) value { E.netUp = a[0].(*Term).IsTrue(); return nil }
+	verifFuncs["verifEndpointStallNew"] = func(fr *frame, a []value) value { E.netStallNew = a[0].(*Term).IsTrue(); return nil }
 	verifFuncs["verifNumConns"] = func(fr *frame, a []value) value { return mkI(len(E.netConns)) }
 	verifFuncs["verifEndpointLog"] = func(fr *frame, a []value) value {
 		k := int(concInt(a[0], true))
